@@ -95,6 +95,7 @@ type SpecFile struct {
 	Facts     []*Fact
 	Raw       []string
 	WfNonNil  bool
+	Homs      []string
 }
 
 func (c *Contract) clauses(kind string) []*Clause {
@@ -189,6 +190,11 @@ func parseSpecFile(path string) (*SpecFile, error) {
 			sf.Contracts[c.Key] = c
 			sf.Order = append(sf.Order, c.Key)
 			cur = c
+		case strings.HasPrefix(t, "homomorphism "):
+			// a ghost string function h with h(a+b) == h(a)+h(b); the engine
+			// states the instance at every string concatenation in code
+			cur = nil
+			sf.Homs = append(sf.Homs, strings.Fields(t)[1:]...)
 		case t == "wf nonnil-elements":
 			cur = nil
 			sf.WfNonNil = true
@@ -382,6 +388,28 @@ func parseClause(c *Contract, t string, line int) error {
 			return fmt.Errorf("let: %v", err)
 		}
 		c.Clauses = append(c.Clauses, &Clause{Kind: "let", Name: name, Text: body, Expr: e, Line: line})
+	case "at":
+		// at call <key> #<n>: E   - E is asserted (and then assumed) just before
+		// the n-th call of <key> in source order; use()/unfold() hints cost nothing
+		f := strings.Fields(rest)
+		if len(f) < 4 || f[0] != "call" || !strings.HasPrefix(f[2], "#") {
+			return fmt.Errorf("bad 'at' clause: %q", t)
+		}
+		nth := strings.TrimSuffix(strings.TrimPrefix(f[2], "#"), ":")
+		n, err := strconv.Atoi(nth)
+		if err != nil {
+			return fmt.Errorf("bad call ordinal in %q", t)
+		}
+		i := strings.Index(rest, ":")
+		if i < 0 {
+			return fmt.Errorf("'at' clause without ':'")
+		}
+		body := strings.TrimSpace(rest[i+1:])
+		e, err := parseSpecExpr(body)
+		if err != nil {
+			return fmt.Errorf("at: %v", err)
+		}
+		c.Clauses = append(c.Clauses, &Clause{Kind: "at", Name: f[1], Loop: n, Text: body, Expr: e, Line: line})
 	case "updates":
 		// updates p, q: the callee changes the contents of these (slice)
 		// parameters in place; the caller's variable gets the new value
@@ -730,4 +758,13 @@ func (c *Contract) rawTexts() []string {
 		out = append(out, c.allSpecFuncs...)
 	}
 	return out
+}
+
+func (c *Contract) mentions(name string) bool {
+	for _, t := range c.rawTexts() {
+		if strings.Contains(t, name+"(") {
+			return true
+		}
+	}
+	return false
 }
